@@ -145,10 +145,14 @@ def signed_int_to_bytes(bytes):
 
 def define_blockshape_2d(bits_per_voxel, blockshape):
     assert blockshape[0] == 1
-    return define_blockshape_3d(bits_per_voxel, blockshape)
+    bits_per_voxel, blockshape = define_blockshape_3d(bits_per_voxel, blockshape, is_2d=True)
+    if bits_per_voxel < 1:
+        # ZFP needs at least 9 bits for a 4x4 block of floats, i.e. more than 1/2 bit per voxel
+        raise ValueError("2D compression requires at least 1 bit per voxel")
+    return bits_per_voxel, blockshape
 
 
-def define_blockshape_3d(bits_per_voxel, blockshape):
+def define_blockshape_3d(bits_per_voxel, blockshape, is_2d=False):
     if sum([1 for n in list(blockshape) + [bits_per_voxel] if n == -1]) > 1:
         raise ValueError("Blockshape is underdefined")
 
@@ -169,8 +173,14 @@ def define_blockshape_3d(bits_per_voxel, blockshape):
         elif blockshape[2] == -1:
             blockshape = (blockshape[0], blockshape[1], int(DISK_BLOCK_BYTES * 8 //
                                                             (blockshape[0] * blockshape[1] * bits_per_voxel)))
-        else:
-            assert(bits_per_voxel * blockshape[0] * blockshape[1] * blockshape[2] == DISK_BLOCK_BYTES * 8)
+
+    # Whichever of the four numbers was left to be calculated, the result must be usable
+    assert(bits_per_voxel * blockshape[0] * blockshape[1] * blockshape[2] == DISK_BLOCK_BYTES * 8)
+    if bits_per_voxel not in (0.25, 0.5, 1, 2, 4, 8, 16, 32):
+        raise ValueError(f"bits_per_voxel is {bits_per_voxel}, must be a power of 2 between 1/4 and 32")
+    for dim in blockshape[1:] if is_2d else blockshape:
+        if dim != int(dim) or dim < 4 or int(dim) & (int(dim) - 1) != 0:
+            raise ValueError(f"Blockshape dimension {dim} is not a power of 2 which is at least 4")
     return bits_per_voxel, blockshape
 
 
